@@ -278,6 +278,14 @@ class C09(Prop):
             if rng.random() < 0.5:
                 out.append(("random-isect", {"k": "isect", "a": f, "f": a}))
 
+        # long lists (hundreds to a couple of thousand events, around powers of two)
+        for n in ([257, 600, 1025] if ctx.quick else [129, 257, 513, 600, 1025, 2049]):
+            a = walk(n, "a", True, True)
+            f = walk(rng.choice([3, 40, n // 2]), "f", False, True)
+            out.append(("long-isect", {"k": "isect", "a": a, "f": f}))
+            out.append(("long-isect", {"k": "isect", "a": f, "f": a}))
+            out.append(("long-union", {"k": "punion", "a": a, "b": f}))
+
         # the same list object passed as both arguments
         for _ in range(ctx.pick(300, 5000)):
             a = walk(rng.randint(0, 6), "a", rng.random() < 0.5, rng.random() < 0.6)
